@@ -1773,6 +1773,10 @@ func resolveIndex(v, index reflect.Value, indexAsStr string) (reflect.Value, err
 			return reflect.Value{}, fmt.Errorf("can't use %s (%s) as key for map of type %s", indexAsStr, indexVal.Type(), v.Type())
 		}
 		index = indexVal.Convert(v.Type().Key()) // noop in most cases, but not expensive
+		if k := indirectInterface(indexVal); k.IsValid() && !k.Type().Comparable() {
+			// (a map with an interface key type accepts any index type at compile time)
+			return reflect.Value{}, fmt.Errorf("can't use %s (%s) as key for map of type %s: not comparable", indexAsStr, k.Type(), v.Type())
+		}
 		return indirectEface(v.MapIndex(indexVal)), nil
 	case reflect.Ptr:
 		etyp := v.Type().Elem()
